@@ -183,6 +183,13 @@ fn materialise(dir: &Path, rows: &Value, blocks: &mut Blocks) {
     for r in rows {
         let p = path_of(&r["p"]);
         if p.is_empty() {
+            // a row for the layer's root directory: only its opaque marker is materialised
+            let o = r["opq"].as_str().unwrap_or("");
+            for (k, name) in MARKERS.iter() {
+                if o == *k {
+                    lsetx(dir, name, b"y");
+                }
+            }
             continue;
         }
         let mut full = dir.to_path_buf();
@@ -228,6 +235,18 @@ fn materialise(dir: &Path, rows: &Value, blocks: &mut Blocks) {
             }
         }
     }
+}
+
+/// which opaque marker (short name) the directory itself carries, read back from the host
+fn root_opq(dir: &Path) -> String {
+    for (k, v) in lxattrs(dir) {
+        if let Some((short, _)) = MARKERS.iter().find(|(_, name)| *name == k) {
+            if v.len() == 1 && (v[0] == b'y' || v[0] == b'Y') {
+                return short.to_string();
+            }
+        }
+    }
+    String::new()
 }
 
 fn type_of(mode: u32, rdev: u64) -> &'static str {
@@ -1360,7 +1379,15 @@ impl Scn {
         // the Layers event is read back from the host (what is really on disk)
         let up_rows = upper.as_ref().map(|u| host_rows(u, &blocks, true)).unwrap_or_default();
         let low_rows: Vec<Value> = lowers.iter().map(|l| Value::Array(host_rows(l, &blocks, true))).collect();
-        tr.emit(&json!({"e":"Layers","seg":seg,"upper":up_rows,"lowers":low_rows}));
+        // "ro": opaque marker of each layer's ROOT directory (upper first when there is one)
+        let mut ro: Vec<String> = Vec::new();
+        if let Some(u) = upper.as_ref() {
+            ro.push(root_opq(u));
+        }
+        for l in lowers.iter() {
+            ro.push(root_opq(l));
+        }
+        tr.emit(&json!({"e":"Layers","seg":seg,"upper":up_rows,"lowers":low_rows,"ro":ro}));
         let mut s = Scn { seg, base, upper, lowers, blocks, names, fs: None, slots: vec![None, None, None], fd0: nfds() };
         match catch_unwind(AssertUnwindSafe(|| build_overlay(s.upper.as_deref(), &s.lowers, &s.base.join("work")))) {
             Ok(Ok(fs)) => s.fs = Some(fs),
@@ -1662,6 +1689,32 @@ fn stacks(seed: u64) -> Vec<Value> {
         for (oi, ops) in opsets.into_iter().enumerate() {
             out.push(json!({"id": format!("cu{}_{}", ci, oi), "B": 16, "upper": true, "names": ["a","b","c"], "depth": 3,
                             "layers": [[], lower.clone()], "ops": ops}));
+        }
+    }
+    // an opaque ROOT directory in each layer position, with each marker name: the union rules apply to the root like
+    // to any other directory (the roots below an opaque one contribute nothing)
+    for (mi, mk) in marks.iter().enumerate() {
+        let lay = |k: usize, opq: &str| -> Value {
+            // every layer: directory "c" with a file named after the layer; the two upper positions also a top-level file
+            let mut rows = vec![json!({"p":["c"],"t":"dir","m":0o755}),
+                                json!({"p":["c", child[k]],"t":"file","m":0o600 + k as u32,"c":[[format!("ROc{}{}", mi, k), 0, 1]]})];
+            if k < 2 {
+                rows.push(json!({"p":[child[k]],"t":"file","m":0o640 + k as u32,"c":[[format!("RO{}{}", mi, k), 0, 1]]}));
+            }
+            if !opq.is_empty() {
+                rows.push(json!({"p":[],"t":"dir","opq":opq}));
+            }
+            Value::Array(rows)
+        };
+        for pos in 0..3usize {
+            let layers: Vec<Value> = (0..3).map(|k| lay(k, if k == pos { mk } else { "" })).collect();
+            out.push(json!({"id": format!("rootopq{}_{}", pos, mk), "B": 16, "upper": true, "names": ["a","b","c"], "depth": 3,
+                            "layers": layers, "ops": [{"op":"create","p":["b"],"m":0o600,"excl":true}, {"op":"unlink","p":["a"]}]}));
+        }
+        for pos in 1..3usize {
+            let layers: Vec<Value> = (1..3).map(|k| lay(k, if k == pos { mk } else { "" })).collect();
+            out.push(json!({"id": format!("rootopq_nu{}_{}", pos, mk), "B": 16, "upper": false, "names": ["a","b","c"], "depth": 3,
+                            "layers": layers, "ops": []}));
         }
     }
     // copy-up of lower regular files (and through lower directories) with read-only / odd modes: every trigger that
